@@ -98,7 +98,7 @@ Qed.
     (QFromProto reads p.Query directly and panics in its default case; nil options are passed on)
     a request without query, and a request without options, crash the handler. *)
 Definition pre_repair_env (rn : list N -> option (list N)) : env :=
-  Env pf_tables pf_qto pf_qfrom pf_qto_default_panics false true c24_exclusions rn (gen_nilfrom nil_depth (rn [])).
+  Env pf_tables pf_qto pf_qfrom pf_qto_default_panics false true c24_exclusions rn (gen_nilfrom nil_depth (rn [])) pf_rawconfig_from_nil_safe.
 
 Lemma pre_repair_unset_query_panics :
   handle (pre_repair_env (fun s => Some s)) ok_streamer ok_stream ok_lister false 0 (VR [("Query"%string, VNil); ("Opts"%string, VNil)])
